@@ -166,6 +166,7 @@ type gen struct {
 	errAt   int // statement count after which one deliberate error may be injected (-1: never)
 	errDone bool
 	noPrint bool // functions for the concurrent check: no PRINT, no EXIT
+	recHi   int  // >0: recursion bound of recursiveBody (deep check); linear recursion only
 	// PREPARE statements collected for the top of the program
 	prologue []ref.PStmt
 }
@@ -619,6 +620,11 @@ func (g *gen) ifStmt(sc *gScope) []ref.PStmt {
 }
 
 func (g *gen) whileStmt(sc *gScope) []ref.PStmt {
+	if g.chance("condLoop", 35) {
+		if out, ok := g.whileCondStmt(sc); ok {
+			return out
+		}
+	}
 	d := g.stmt("var")
 	d.Kw = "VAR"
 	d.Name = "k" + strconv.Itoa(d.ID)
@@ -643,6 +649,159 @@ func (g *gen) whileStmt(sc *gScope) []ref.PStmt {
 		out = g.printVisible(sc, out)
 	}
 	return out
+}
+
+// whileCondStmt: a WHILE whose CONDITION reads a pool-named variable, calls a
+// pool-named function or tests a pool-named cursor, while the body - after
+// having advanced the outer object - re-declares that very name.  The
+// condition belongs to the enclosing scope: from the second iteration on it
+// must not see what the previous iteration's body declared.  A separate
+// counter with IF .. THEN BREAK bounds the loop whatever the condition sees.
+func (g *gen) whileCondStmt(sc *gScope) ([]ref.PStmt, bool) {
+	kind := fw.Pick(g.t, "condKind", []string{"var", "var", "func", "curopen", "currange"})
+	iters := g.intn("citers", 2, 3)
+	notHere := func(pool []string, here func(string) bool) []string {
+		return filter(pool, func(n string) bool { return !here(n) })
+	}
+	var pre, head []ref.PStmt
+	var cond *ref.PCond
+	body := newScope(sc)
+	body.inLoop = true
+	after := func() {}
+	k := g.stmt("var")
+	k.Kw, k.Name, k.E = "VAR", "k"+strconv.Itoa(k.ID), lit(0)
+	rows := func() []int64 {
+		r := make([]int64, iters)
+		for i := range r {
+			r[i] = int64(g.intn("crow", 0, 9))
+		}
+		return r
+	}
+	switch kind {
+	case "var":
+		name := ""
+		if vis := sc.setVars(); len(vis) > 0 && g.chance("condOuterVar", 60) {
+			name = fw.Pick(g.t, "cvar", vis)
+			st := g.stmt("set")
+			st.Name, st.E = name, lit(0)
+			pre = append(pre, st)
+		} else {
+			free := notHere(varPool, func(n string) bool { _, ok := sc.vars[n]; return ok || sc.noDecl[n] })
+			if len(free) == 0 {
+				return nil, false
+			}
+			name = fw.Pick(g.t, "cvar", free)
+			dv := g.stmt("var")
+			dv.Kw, dv.Name, dv.E = "VAR", name, lit(0)
+			sc.vars[name] = &gVar{}
+			pre = append(pre, dv)
+		}
+		cond = &ref.PCond{K: "cmp", Op: "<", A: varE(name), B: lit(int64(iters))}
+		if !g.noPrint {
+			head = append(head, g.printStmt(varE(name)))
+		}
+		adv := g.stmt("set")
+		adv.Name, adv.E = name, bin("+", varE(name), lit(1))
+		sh := g.stmt("var")
+		sh.Kw, sh.Name, sh.E = fw.Pick(g.t, "kw", []string{"VAR", "DECLARE"}), name, lit(int64(fw.Pick(g.t, "shadowVal", []int{100, 0, 1})))
+		body.vars[name] = &gVar{}
+		head = append(head, adv, sh)
+	case "func":
+		free := notHere(funPool, func(n string) bool { return sc.funs[n] })
+		if len(free) == 0 {
+			return nil, false
+		}
+		name := fw.Pick(g.t, "cfun", free)
+		c0 := int64(g.intn("c0", 0, 3))
+		mk := func(e *ref.PExpr) ref.PStmt {
+			f := g.stmt("func")
+			f.Name, f.Var = name, fw.Pick(g.t, "param", varPool)
+			r := g.stmt("return")
+			if e == nil {
+				e = bin("+", varE(f.Var), lit(c0))
+			}
+			r.E = e
+			f.Body = []ref.PStmt{r}
+			return f
+		}
+		pre = append(pre, mk(nil))
+		sc.funs[name] = true
+		cond = &ref.PCond{K: "cmp", Op: "<", A: &ref.PExpr{K: "call", Name: name, A: varE(k.Name)}, B: lit(int64(iters) + c0)}
+		if !g.noPrint {
+			head = append(head, g.printStmt(&ref.PExpr{K: "call", Name: name, A: lit(int64(g.intn("arg", 0, 4)))}))
+		}
+		head = append(head, mk(lit(int64(fw.Pick(g.t, "shadowVal", []int{100, 0})))))
+		body.funs[name] = true
+	case "curopen", "currange":
+		free := notHere(curPool, func(n string) bool { _, ok := sc.curs[n]; return ok })
+		tg := sc.setVars()
+		if len(free) == 0 || (kind == "currange" && len(tg) == 0) {
+			return nil, false
+		}
+		name := fw.Pick(g.t, "ccur", free)
+		dc := g.stmt("cursor")
+		dc.Name, dc.Rows = name, rows()
+		op := g.stmt("open")
+		op.Name = name
+		sc.curs[name] = &gCur{open: true}
+		pre = append(pre, dc, op)
+		sh := g.stmt("cursor")
+		sh.Name, sh.Rows = name, rows()
+		if kind == "curopen" {
+			cond = &ref.PCond{K: "curopen", Name: name}
+			if !g.noPrint {
+				head = append(head, ref.PStmt{ID: g.id(), K: "printopen", Name: name})
+			}
+			// the outer cursor is closed in the last wanted iteration, before the body's own cursor exists
+			cl := g.stmt("close")
+			cl.Name = name
+			gi := g.stmt("if")
+			gi.Form = "if"
+			gi.Conds = []ref.PCond{{K: "cmp", Op: ">=", A: varE(k.Name), B: lit(int64(iters))}}
+			gi.Blocks = [][]ref.PStmt{{cl}}
+			head = append(head, gi, sh)
+			body.curs[name] = &gCur{}
+			after = func() { sc.curs[name].open = false }
+		} else {
+			v := fw.Pick(g.t, "fvar", tg)
+			f0 := g.stmt("fetch")
+			f0.Name, f0.Var = name, v
+			pre = append(pre, f0)
+			cond = &ref.PCond{K: "curinrange", Name: name}
+			if !g.noPrint {
+				head = append(head, g.printStmt(varE(v)))
+			}
+			f1 := g.stmt("fetch")
+			f1.Name, f1.Var = name, v
+			// a fetch that runs off the end leaves the variable unpredicted: give it a known value again
+			fix := ref.PStmt{ID: g.id(), K: "if", Form: "if", Conds: []ref.PCond{{K: "curinrange", Name: name}}, HasElse: true}
+			fix.Blocks = [][]ref.PStmt{{{ID: g.id(), K: "set", Name: v, E: bin("+", varE(v), lit(0))}}}
+			fix.Else = []ref.PStmt{{ID: g.id(), K: "set", Name: v, E: lit(int64(g.intn("lit", 0, 9)))}}
+			so := g.stmt("open")
+			so.Name = name
+			head = append(head, f1, fix, sh, so)
+			body.curs[name] = &gCur{open: true}
+		}
+	}
+	sc.vars[k.Name] = &gVar{protected: true}
+	w := g.stmt("while")
+	w.Form = "cond:" + kind
+	w.C = cond
+	inc := g.stmt("set")
+	inc.Name, inc.E = k.Name, bin("+", varE(k.Name), lit(1))
+	br := g.stmt("break")
+	guard := g.stmt("if")
+	guard.Form = "if"
+	guard.Conds = []ref.PCond{{K: "cmp", Op: ">", A: varE(k.Name), B: lit(int64(iters + 1))}}
+	guard.Blocks = [][]ref.PStmt{{br}}
+	w.Body = append([]ref.PStmt{inc, guard}, head...)
+	w.Body = append(w.Body, g.block(body, 1, 3)...)
+	after()
+	out := append(append(pre, k), w)
+	if g.chance("afterPrint", 60) {
+		out = g.printVisible(sc, out)
+	}
+	return out, true
 }
 
 func (g *gen) cursorDecl(sc *gScope) (ref.PStmt, bool) {
@@ -904,7 +1063,55 @@ func (g *gen) whileIn(sc *gScope, name string) []ref.PStmt {
 		s.Var = fw.Pick(g.t, "wvar", varPool)
 		body.vars[s.Var] = &gVar{}
 	}
-	s.Body = g.block(body, 1, 4)
+	// loop names re-declared in the body: the per-iteration fetch belongs to the
+	// enclosing scope (outer cursor, outer target) however the previous
+	// iteration's body shadowed them
+	var head []ref.PStmt
+	{
+		// a counter of the enclosing block bounds every cursor loop whatever cursor its fetch finds
+		kd := g.stmt("var")
+		kd.Kw, kd.Name, kd.E = "VAR", "k"+strconv.Itoa(kd.ID), lit(0)
+		sc.vars[kd.Name] = &gVar{protected: true}
+		out = append(out, kd)
+		inc := g.stmt("set")
+		inc.Name, inc.E = kd.Name, bin("+", varE(kd.Name), lit(1))
+		guard := g.stmt("if")
+		guard.Form = "if"
+		guard.Conds = []ref.PCond{{K: "cmp", Op: ">", A: varE(kd.Name), B: lit(12)}}
+		guard.Blocks = [][]ref.PStmt{{g.stmt("break")}}
+		head = append(head, inc, guard)
+	}
+	if g.chance("shadowLoopNames", 40) {
+		s.Form = "shadow"
+		if !g.noPrint {
+			head = append(head, g.printStmt(varE(s.Var)))
+		}
+		if s.Decl == "" && !body.noDecl[s.Var] && g.chance("shadowTarget", 70) {
+			sh := g.stmt("var")
+			sh.Kw, sh.Name, sh.E = "VAR", s.Var, lit(int64(g.intn("lit", 0, 9)))
+			body.vars[s.Var] = &gVar{}
+			head = append(head, sh)
+			s.Form += ":var"
+		}
+		if s.Decl != "" || g.chance("shadowLoopCursor", 60) {
+			sh := g.stmt("cursor")
+			sh.Name = name
+			n := g.intn("crows", 1, 4)
+			for i := 0; i < n; i++ {
+				sh.Rows = append(sh.Rows, int64(g.intn("crow", 0, 9)))
+			}
+			body.curs[name] = &gCur{}
+			head = append(head, sh)
+			if g.chance("openNow", 75) {
+				so := g.stmt("open")
+				so.Name = name
+				body.curs[name].open = true
+				head = append(head, so)
+			}
+			s.Form += ":cursor"
+		}
+	}
+	s.Body = append(head, g.block(body, 1, 4)...)
 	out = append(out, s)
 	if s.Decl == "" {
 		// the value left in the variable by the failing last fetch is not modelled: overwrite it
@@ -1070,7 +1277,7 @@ func (g *gen) recursiveBody(bs *gScope, name, p string) []ref.PStmt {
 	if g.chance("swapXY", 50) {
 		x, y = y, x
 	}
-	fib := g.chance("fib", 40)
+	fib := g.chance("fib", 40) && g.recHi == 0
 	var body []ref.PStmt
 	bs.noDecl = map[string]bool{}
 	if g.chance("pre", 50) {
@@ -1079,6 +1286,9 @@ func (g *gen) recursiveBody(bs *gScope, name, p string) []ref.PStmt {
 	ifs := g.stmt("if")
 	ifs.Form = fw.Pick(g.t, "rform", []string{"if", "case"})
 	ifs.Conds = []ref.PCond{{K: "range", A: varE(p), Lo: 1, Hi: int64(g.intn("rhi", 2, 4))}}
+	if g.recHi > 0 {
+		ifs.Conds[0].Hi = int64(g.recHi)
+	}
 	ib := newScope(bs)
 	ib.noDecl = map[string]bool{p: true, x: true, y: true}
 	var blk []ref.PStmt
@@ -1106,7 +1316,11 @@ func (g *gen) recursiveBody(bs *gScope, name, p string) []ref.PStmt {
 		blk = append(blk, d2)
 		ret.E = bin("+", varE(x), varE(y))
 	} else {
-		ret.E = bin(fw.Pick(g.t, "rop", []string{"*", "+"}), varE(p), varE(x))
+		rop := fw.Pick(g.t, "rop", []string{"*", "+"})
+		if g.recHi > 0 {
+			rop = "+" // a product over 20-90 levels leaves the integer range of the model
+		}
+		ret.E = bin(rop, varE(p), varE(x))
 	}
 	blk = append(blk, ret)
 	ifs.Blocks = [][]ref.PStmt{blk}
@@ -1364,6 +1578,23 @@ func statClasses(o *fw.Outcome, st ref.PStats) {
 	}
 }
 
+// genClasses labels the loop shapes a program contains whose condition /
+// per-iteration fetch uses a name that the loop body re-declares.
+func genClasses(o *fw.Outcome, prog []ref.PStmt) {
+	seen := map[string]bool{}
+	ref.WalkProc(prog, func(s *ref.PStmt, depth int) {
+		switch {
+		case s.K == "while" && strings.HasPrefix(s.Form, "cond:"):
+			seen["gen:while_"+s.Form] = true
+		case s.K == "whilein" && strings.HasPrefix(s.Form, "shadow"):
+			seen["gen:whilein_"+s.Form] = true
+		}
+	})
+	for _, k := range fw.SortedKeys(seen) {
+		o.Classes = append(o.Classes, k)
+	}
+}
+
 // shape: block tree + name reuse pattern of a program.
 func shape(prog []ref.PStmt) string {
 	var b strings.Builder
@@ -1380,7 +1611,7 @@ func shape(prog []ref.PStmt) string {
 		b.WriteString(s.K[:2])
 		switch s.K {
 		case "var", "set", "func", "table", "cursor", "insert", "open", "close", "whilein", "fetch", "dispose":
-			if !strings.HasPrefix(s.Name, "k") && !strings.HasPrefix(s.Name, "n") && !strings.HasPrefix(s.Name, "z") {
+			if !strings.HasPrefix(s.Name, "k") && !strings.HasPrefix(s.Name, "n") && !strings.HasPrefix(s.Name, "z") && !strings.HasPrefix(s.Name, "g") && !strings.HasPrefix(s.Name, "fx") && !strings.HasPrefix(s.Name, "cu") {
 				b.WriteString(s.Name)
 			}
 		case "if":
@@ -1391,9 +1622,11 @@ func shape(prog []ref.PStmt) string {
 	return b.String()
 }
 
-func checkProg(c progCase) (fw.Outcome, *fw.Violation) {
+func checkProg(c progCase) (fw.Outcome, *fw.Violation) { return checkProgOpt(c, ref.POpt{}) }
+
+func checkProgOpt(c progCase, opt ref.POpt) (fw.Outcome, *fw.Violation) {
 	o := fw.Outcome{}
-	want := ref.RunProc(c.Prog, ref.POpt{})
+	want := ref.RunProc(c.Prog, opt)
 	if want.Discard != "" {
 		o.Discard = true
 		fw.AddExtra("discard:"+want.Discard, 1)
@@ -1427,6 +1660,7 @@ func checkProg(c progCase) (fw.Outcome, *fw.Violation) {
 		o.Classes = append(o.Classes, "end:ok")
 	}
 	statClasses(&o, want.Stats)
+	genClasses(&o, c.Prog)
 	if v := compare(c.Prog, text, want, got); v != nil {
 		return o, v
 	}
@@ -1441,7 +1675,7 @@ func TestC15Procedure(t *testing.T) {
 	fw.Run(t, fw.Spec[progCase]{
 		ID: "C15", Name: "procedure", Quick: 60000, Thorough: 1200000,
 		Gen: genProg, Check: checkProg,
-		Rule: "procedures of <=40 statements, block depth <=5, nesting IF/ELSEIF/ELSE, CASE (both forms), counter-bounded WHILE, WHILE..IN cursor loops, OPEN/CLOSE/FETCH (all positions)/DISPOSE CURSOR and the cursor status expressions at any depth, declarations of all four kinds also executed dynamically in place (EXECUTE string, EXECUTE of a PREPAREd statement, SOURCE of a generated file; 18% of loops declare only that way), BREAK/CONTINUE/RETURN/EXIT, (nested, recursive factorial/fibonacci-shaped) scalar functions and calls, with variables, cursors, temporary tables and functions (re)declared under names from 3-name pools at every level; executed in-process and compared (PRINT lines, terminating error class, EXIT flow) with an environment-stack reference interpreter; non-trivial = an outer object is used again after the block that shadowed it ended, or a recursion depth >= 2; distinct by block tree + name pattern",
+		Rule: "procedures of <=40 statements, block depth <=5, nesting IF/ELSEIF/ELSE, CASE (both forms), counter-bounded WHILE, WHILE whose condition reads a pool-named variable / calls a pool-named function / tests a pool-named cursor (IS OPEN, IS IN RANGE) that the body re-declares after advancing the outer one (35% of loops; an outer counter with IF .. THEN BREAK bounds them), WHILE..IN cursor loops (all bounded the same way; 40% re-declare the fetch variable and/or the loop cursor in the body), OPEN/CLOSE/FETCH (all positions)/DISPOSE CURSOR and the cursor status expressions at any depth, declarations of all four kinds also executed dynamically in place (EXECUTE string, EXECUTE of a PREPAREd statement, SOURCE of a generated file; 18% of loops declare only that way), BREAK/CONTINUE/RETURN/EXIT, (nested, recursive factorial/fibonacci-shaped) scalar functions and calls, with variables, cursors, temporary tables and functions (re)declared under names from 3-name pools at every level; executed in-process and compared (PRINT lines, terminating error class, EXIT flow) with an environment-stack reference interpreter; non-trivial = an outer object is used again after the block that shadowed it ended, or a recursion depth >= 2; distinct by block tree + name pattern",
 		Assumptions: []string{
 			"function bodies use only parameters, locals and lexically visible functions; any name that resolves differently under lexical and dynamic (caller chain) scoping discards the case",
 			"outcomes that depend on an undocumented evaluation order (two errors in one statement, an error beside a function call with side effects, CLOSE of a closed cursor, the variable left by the failing fetch of WHILE..IN) are discarded or overwritten",
@@ -1462,7 +1696,16 @@ type concCase struct {
 	Args  []int64     `json:"args"`
 	CPU   int         `json:"cpu"`
 	Text  string      `json:"text"`
+	// Form is the statement that invokes the function once per record (see concForms); "" = select.
+	Form string `json:"form,omitempty"`
+	K    int64  `json:"k,omitempty"`   // where: threshold
+	Fn2  string `json:"fn2,omitempty"` // two: the second function
 }
+
+// concForms: the per-record evaluation sites from which the invocations are
+// started (each is a different goroutine fan-out in csvq: select clause, WHERE
+// filter, ORDER BY keys, GROUP BY keys, UPDATE SET values).
+var concForms = []string{"select", "select", "select", "where", "where", "orderby", "groupby", "two", "two", "update"}
 
 func genConc(t *rapid.T) concCase {
 	g := &gen{t: t, budget: stmtBudget, errAt: -1, noPrint: true}
@@ -1500,11 +1743,94 @@ func genConc(t *rapid.T) concCase {
 		_ = calls
 		return r
 	})
-	return concCase{Decls: prog, Fn: fn, Args: args, CPU: 4, Text: ref.RenderProc(prog)}
+	c := concCase{Decls: prog, Fn: fn, Args: args, CPU: 4, Text: ref.RenderProc(prog)}
+	c.Form = fw.Pick(t, "form", concForms)
+	switch c.Form {
+	case "where":
+		c.K = int64(g.intn("k", 0, 12))
+	case "two":
+		c.Fn2 = fn
+		if names := fw.SortedKeys(top.funs); len(names) > 0 {
+			c.Fn2 = fw.Pick(t, "fn2", names)
+		}
+	case "select":
+		c.Form = ""
+	}
+	if c.Form != "" {
+		c.CPU = fw.Pick(t, "cpu", []int{2, 4, 4, 8})
+	}
+	if c.Form == "two" && c.Fn2 != fn {
+		repairTableShadow(prog, func() ref.PResult {
+			r, _ := ref.RunProcThenCalls(prog, c.Fn2, args, ref.POpt{MaxSteps: 1500})
+			return r
+		})
+		c.Text = ref.RenderProc(prog)
+	}
+	if avoidKnownDMLSelfDeadlock && c.Form == "update" && performsDML(c.Decls) {
+		// finding dml_statement_self_deadlock: not generated
+		fw.AddExtra("excluded:update_form_with_dml_in_function", 1)
+		c.Form = "two"
+		c.Fn2 = fn
+	}
+	return c
+}
+
+// csvq holds the transaction's (non-reentrant) operation mutex for the whole of
+// an INSERT / UPDATE / REPLACE / DELETE statement, including the evaluation of
+// its expressions; a user-defined function that itself runs such a statement
+// (e.g. an INSERT into its own local temporary table) therefore blocks for ever
+// when it is invoked from one: finding dml_statement_self_deadlock.  While this
+// is true the concurrent check does not generate the UPDATE form for functions
+// that contain an INSERT.
+const avoidKnownDMLSelfDeadlock = true
+
+func performsDML(prog []ref.PStmt) bool {
+	found := false
+	ref.WalkProc(prog, func(s *ref.PStmt, depth int) {
+		if s.K == "insert" {
+			found = true
+		}
+		if s.K == "prepare" || s.K == "dyn" {
+			for i := range s.Body {
+				if s.Body[i].K == "insert" {
+					found = true
+				}
+			}
+		}
+	})
+	return found
+}
+
+// concQuery renders the statement(s) of the case's form.
+func concQuery(c concCase) string {
+	f := fmt.Sprintf("%s(INTEGER(n))", c.Fn)
+	switch c.Form {
+	case "where":
+		return fmt.Sprintf("SELECT id FROM big WHERE %s >= %d;\n", f, c.K)
+	case "orderby":
+		return fmt.Sprintf("SELECT id, n FROM big ORDER BY %s NULLS FIRST, INTEGER(id);\n", f)
+	case "groupby":
+		return fmt.Sprintf("SELECT COUNT(*) AS c, MIN(INTEGER(n)) AS m FROM big GROUP BY %s;\n", f)
+	case "two":
+		return fmt.Sprintf("SELECT id, n, %s AS r, %s(INTEGER(n)) AS r2 FROM big;\n", f, c.Fn2)
+	case "update":
+		return fmt.Sprintf("DECLARE c15upd VIEW (id, n, r) AS SELECT id, n, -1 FROM big;\nUPDATE c15upd SET r = %s;\nSELECT id, n, r FROM c15upd;\n", f)
+	}
+	return fmt.Sprintf("SELECT id, n, %s AS r FROM big;\n", f)
+}
+
+func cellIs(w ref.PVal, cell run.Val) bool {
+	return (w.Null && cell.K == "N") || (!w.Null && cell.K == "I" && cell.S == strconv.FormatInt(w.N, 10))
 }
 
 func checkConc(c concCase) (fw.Outcome, *fw.Violation) {
 	o := fw.Outcome{}
+	switch c.Form {
+	case "", "where", "orderby", "groupby", "two", "update":
+	default:
+		o.Discard = true
+		return o, nil
+	}
 	text := ref.RenderProcDir(c.Decls, emptyDir("c15conc"))
 	want, calls := ref.RunProcThenCalls(c.Decls, c.Fn, c.Args, ref.POpt{MaxSteps: 1500})
 	if want.Discard != "" || want.Err != "" || want.Exit {
@@ -1512,21 +1838,46 @@ func checkConc(c concCase) (fw.Outcome, *fw.Violation) {
 		fw.AddExtra("discard:prefix:"+want.Discard+want.Err, 1)
 		return o, nil
 	}
-	errs := map[string]bool{}
-	for _, a := range c.Args {
-		cr := calls[a]
-		if cr.Discard != "" {
+	callSets := []map[int64]ref.PCallResult{calls}
+	var calls2 map[int64]ref.PCallResult
+	if c.Form == "two" {
+		var w2 ref.PResult
+		w2, calls2 = ref.RunProcThenCalls(c.Decls, c.Fn2, c.Args, ref.POpt{MaxSteps: 1500})
+		if w2.Discard != "" || w2.Err != "" || w2.Exit {
 			o.Discard = true
-			fw.AddExtra("discard:"+cr.Discard, 1)
 			return o, nil
 		}
-		if cr.Err != "" {
-			errs[cr.Err] = true
+		callSets = append(callSets, calls2)
+		if want.Stats.TableShadowStmt == 0 {
+			want.Stats.TableShadowStmt = w2.Stats.TableShadowStmt
+		}
+	}
+	errs := map[string]bool{}
+	hasNull := false
+	for _, cs := range callSets {
+		for _, a := range c.Args {
+			cr := cs[a]
+			if cr.Discard != "" {
+				o.Discard = true
+				fw.AddExtra("discard:"+cr.Discard, 1)
+				return o, nil
+			}
+			if cr.Err != "" {
+				errs[cr.Err] = true
+			} else if cr.Val.Null {
+				hasNull = true
+			}
 		}
 	}
 	if len(errs) > 1 {
 		o.Discard = true
 		fw.AddExtra("discard:several_error_classes", 1)
+		return o, nil
+	}
+	if c.Form == "groupby" && hasNull && len(errs) == 0 {
+		// whether NULL keys form one group is not this property's business
+		o.Discard = true
+		fw.AddExtra("discard:groupby_null_key", 1)
 		return o, nil
 	}
 	dir := emptyDir("c15conc")
@@ -1547,7 +1898,20 @@ func checkConc(c concCase) (fw.Outcome, *fw.Violation) {
 	if cpu < 1 {
 		cpu = 4
 	}
-	full := text + fmt.Sprintf("SELECT id, n, %s(INTEGER(n)) AS r FROM big;\n", c.Fn)
+	full := text + concQuery(c)
+	if c.Form == "update" && performsDML(c.Decls) {
+		// never generated while avoidKnownDMLSelfDeadlock is true (pinned regression case of the finding)
+		r, dead, err := execOrSelfDeadlock(dir, full, cpu)
+		if err != nil {
+			return o, fw.V("harness_session", "%v", err)
+		}
+		if dead {
+			return o, fw.V("dml_statement_self_deadlock", "UPDATE .. SET r = %s(..) never returns: the function runs an INSERT into its own temporary table while the UPDATE statement holds the transaction's operation mutex (the goroutine waits in sync.Mutex.Lock below query.Insert with query.Update further down its own stack)\n%s", c.Fn, full)
+		}
+		if r.Err != nil {
+			return o, fw.V("concurrent_unexpected_error_update:"+csvqErrClass(r.Err), "%v\n%s", r.Err, full)
+		}
+	}
 	r, _, err := execProgram(dir, full, cpu, false)
 	if err != nil {
 		return o, fw.V("harness_session", "%v", err)
@@ -1556,15 +1920,24 @@ func checkConc(c concCase) (fw.Outcome, *fw.Violation) {
 		return o, fw.V("generator_syntax", "the generated program does not parse: %v\n%s", r.Err, full)
 	}
 	statClasses(&o, want.Stats)
+	form := c.Form
+	if form == "" {
+		form = "select"
+	}
+	o.Classes = append(o.Classes, "form:"+form, fmt.Sprintf("cpu:%d", cpu))
+	sfx := ""
+	if c.Form != "" {
+		sfx = "_" + c.Form
+	}
 	got := csvqErrClass(r.Err)
 	if len(errs) == 1 {
 		wantErr := fw.SortedKeys(errs)[0]
 		o.Classes = append(o.Classes, "end:"+wantErr)
 		if got != wantErr {
 			if wantErr == "" || got == "" {
-				return o, fw.V("concurrent_error_presence", "SELECT over %d rows: csvq err=%q (%v), reference err=%q\n%s", len(c.Args), got, r.Err, wantErr, full)
+				return o, fw.V("concurrent_error_presence"+sfx, "%d rows: csvq err=%q (%v), reference err=%q\n%s", len(c.Args), got, r.Err, wantErr, full)
 			}
-			return o, fw.V("concurrent_wrong_error:"+wantErr+"->"+got, "SELECT over %d rows: %v\n%s", len(c.Args), r.Err, full)
+			return o, fw.V("concurrent_wrong_error"+sfx+":"+wantErr+"->"+got, "%d rows: %v\n%s", len(c.Args), r.Err, full)
 		}
 		return o, nil
 	}
@@ -1574,31 +1947,115 @@ func checkConc(c concCase) (fw.Outcome, *fw.Violation) {
 			return o, fw.V("temp_table_shadow_redeclared", "function-local temporary table rejected as redeclared: %v\n%s", r.Err, full)
 		}
 		if got == "E16/90160" {
-			return o, fw.V("concurrent_source_already_opened", "SOURCE inside a function invoked from several goroutines: %v (SELECT over %d rows, CPU %d)\n%s", r.Err, len(c.Args), cpu, full)
+			return o, fw.V("concurrent_source_already_opened", "SOURCE inside a function invoked from several goroutines: %v (%d rows, CPU %d)\n%s", r.Err, len(c.Args), cpu, full)
 		}
-		return o, fw.V("concurrent_unexpected_error:"+got, "SELECT over %d rows: %v\n%s", len(c.Args), r.Err, full)
+		return o, fw.V("concurrent_unexpected_error"+sfx+":"+got, "%d rows: %v\n%s", len(c.Args), r.Err, full)
 	}
 	if len(r.Views) != 1 {
-		return o, fw.V("concurrent_result_shape", "expected one result, got %d\n%s", len(r.Views), full)
+		return o, fw.V("concurrent_result_shape"+sfx, "expected one result, got %d\n%s", len(r.Views), full)
 	}
 	rows := r.Views[0].Rows
-	if len(rows) != len(c.Args) {
-		return o, fw.V("concurrent_result_shape", "expected %d rows, got %d\n%s", len(c.Args), len(rows), full)
-	}
-	seen := make([]bool, len(c.Args))
-	for _, row := range rows {
-		if len(row) != 3 {
-			return o, fw.V("concurrent_result_shape", "row %v\n%s", row, full)
+	ctxt := func() string { return fmt.Sprintf("(CPU %d, %d rows)\n%s", cpu, len(c.Args), full) }
+	rowID := func(row []run.Val) (int, bool) {
+		if len(row) == 0 {
+			return 0, false
 		}
 		id, e := strconv.Atoi(row[0].S)
-		if e != nil || id < 0 || id >= len(c.Args) || seen[id] {
-			return o, fw.V("concurrent_result_shape", "unexpected id in row %v\n%s", row, full)
+		return id, e == nil && id >= 0 && id < len(c.Args)
+	}
+	switch c.Form {
+	case "where":
+		seen := make([]bool, len(c.Args))
+		for _, row := range rows {
+			id, ok := rowID(row)
+			if !ok || len(row) != 1 || seen[id] {
+				return o, fw.V("concurrent_result_shape_where", "unexpected row %v %s", row, ctxt())
+			}
+			seen[id] = true
 		}
-		seen[id] = true
-		w := calls[c.Args[id]].Val
-		ok := (w.Null && row[2].K == "N") || (!w.Null && row[2].K == "I" && row[2].S == strconv.FormatInt(w.N, 10))
-		if !ok {
-			return o, fw.V("concurrent_invocation_result", "row id=%d: %s(%d) = %s, reference %s (CPU %d, %d rows)\n%s", id, c.Fn, c.Args[id], row[2], w, cpu, len(c.Args), full)
+		for id, a := range c.Args {
+			w := calls[a].Val
+			if keep := !w.Null && w.N >= c.K; keep != seen[id] {
+				return o, fw.V("concurrent_invocation_result_where", "row id=%d: %s(%d) = %s in the reference, so `>= %d` keeps the row: %v, csvq kept it: %v %s", id, c.Fn, a, w, c.K, keep, seen[id], ctxt())
+			}
+		}
+	case "orderby":
+		if len(rows) != len(c.Args) {
+			return o, fw.V("concurrent_result_shape_orderby", "expected %d rows, got %d %s", len(c.Args), len(rows), ctxt())
+		}
+		order := make([]int, len(c.Args))
+		for i := range order {
+			order[i] = i
+		}
+		sort.SliceStable(order, func(i, j int) bool {
+			a, b := calls[c.Args[order[i]]].Val, calls[c.Args[order[j]]].Val
+			if a.Null != b.Null {
+				return a.Null
+			}
+			return !a.Null && a.N < b.N
+		})
+		for i, row := range rows {
+			id, ok := rowID(row)
+			if !ok || len(row) != 2 {
+				return o, fw.V("concurrent_result_shape_orderby", "unexpected row %v %s", row, ctxt())
+			}
+			if id != order[i] {
+				return o, fw.V("concurrent_invocation_result_orderby", "position %d holds id=%d (n=%d), the reference keys put id=%d (n=%d, %s = %s) there %s", i, id, c.Args[id], order[i], c.Args[order[i]], c.Fn, calls[c.Args[order[i]]].Val, ctxt())
+			}
+		}
+	case "groupby":
+		type grp struct{ cnt, min int64 }
+		groups := map[int64]*grp{}
+		for _, a := range c.Args {
+			k := calls[a].Val.N
+			g := groups[k]
+			if g == nil {
+				g = &grp{min: a}
+				groups[k] = g
+			}
+			g.cnt++
+			if a < g.min {
+				g.min = a
+			}
+		}
+		var wantG, gotG []string
+		for _, g := range groups {
+			wantG = append(wantG, fmt.Sprintf("%d/%d", g.cnt, g.min))
+		}
+		for _, row := range rows {
+			if len(row) != 2 {
+				return o, fw.V("concurrent_result_shape_groupby", "unexpected row %v %s", row, ctxt())
+			}
+			gotG = append(gotG, row[0].S+"/"+row[1].S)
+		}
+		sort.Strings(wantG)
+		sort.Strings(gotG)
+		if strings.Join(wantG, ",") != strings.Join(gotG, ",") {
+			return o, fw.V("concurrent_invocation_result_groupby", "groups (count/min n) by %s(n): csvq [%s], reference [%s] %s", c.Fn, strings.Join(gotG, ","), strings.Join(wantG, ","), ctxt())
+		}
+	default: // select, two, update: one row per record with the invocation's value(s)
+		if len(rows) != len(c.Args) {
+			return o, fw.V("concurrent_result_shape"+sfx, "expected %d rows, got %d %s", len(c.Args), len(rows), ctxt())
+		}
+		width := 3
+		if c.Form == "two" {
+			width = 4
+		}
+		seen := make([]bool, len(c.Args))
+		for _, row := range rows {
+			id, ok := rowID(row)
+			if !ok || len(row) != width || seen[id] {
+				return o, fw.V("concurrent_result_shape"+sfx, "unexpected row %v %s", row, ctxt())
+			}
+			seen[id] = true
+			if w := calls[c.Args[id]].Val; !cellIs(w, row[2]) {
+				return o, fw.V("concurrent_invocation_result"+sfx, "row id=%d: %s(%d) = %s, reference %s %s", id, c.Fn, c.Args[id], row[2], w, ctxt())
+			}
+			if c.Form == "two" {
+				if w := calls2[c.Args[id]].Val; !cellIs(w, row[3]) {
+					return o, fw.V("concurrent_invocation_result_two", "row id=%d: second function %s(%d) = %s, reference %s %s", id, c.Fn2, c.Args[id], row[3], w, ctxt())
+				}
+			}
 		}
 	}
 	if want.Stats.ShadowReadAfter > 0 || want.Stats.MaxRecDepth >= 2 {
@@ -1612,7 +2069,7 @@ func checkConc(c concCase) (fw.Outcome, *fw.Violation) {
 			ks = append(ks, int(a))
 		}
 		sort.Ints(ks)
-		o.Fingerprint = shape(c.Decls) + fmt.Sprint(ks)
+		o.Fingerprint = shape(c.Decls) + fmt.Sprint(ks) + c.Form
 	}
 	return o, nil
 }
@@ -1621,9 +2078,11 @@ func TestC15Concurrent(t *testing.T) {
 	fw.Run(t, fw.Spec[concCase]{
 		ID: "C15", Name: "concurrent", Quick: 5000, Thorough: 100000,
 		Gen: genConc, Check: checkConc,
-		Rule: "1-3 generated scalar functions (locals, nested blocks and loops, local cursors/tables/functions, recursion; no PRINT) declared beside top-level variables of the same names, then SELECT id, n, f(INTEGER(n)) FROM a 160-320 row CSV (n in 0..6) with CPU 4 so that invocations run concurrently; every row's value must equal the reference interpreter's f(n); non-trivial = recursion depth >= 2 or an outer object used after its shadowing block ended; distinct by function shapes + argument set",
+		Rule: "1-3 generated scalar functions (locals, nested blocks and loops, local cursors/tables/functions, recursion; no PRINT) declared beside top-level variables of the same names, then one statement that invokes f(INTEGER(n)) once per record of a 160-320 row CSV (n in 0..6) so that invocations run concurrently - forms: select clause (CPU 4), WHERE f(n) >= k, ORDER BY f(n), GROUP BY f(n), two functions per record, UPDATE .. SET r = f(n) on a temporary copy (CPU 2/4/8); every row's value / the kept rows / the row order / the groups must equal what the reference interpreter's f(n) gives; non-trivial = recursion depth >= 2 or an outer object used after its shadowing block ended; distinct by function shapes + argument set",
 		Assumptions: []string{
 			"same closedness / discard rules as the procedure check; functions that PRINT are not generated here because their interleaving is unordered",
+			"GROUP BY form: a NULL result of the function discards the case (grouping of NULL keys is not this property's business)",
+			"avoidKnownDMLSelfDeadlock=true: the UPDATE form is not generated for functions that contain an INSERT (finding dml_statement_self_deadlock; the pinned case is recognised by the goroutine dump - a goroutine waiting in sync.Mutex.Lock under query.Insert with query.Update further down its own stack - not by a time limit)",
 		},
 	})
 }
